@@ -181,6 +181,9 @@ class QuantileInterval(BaseInterval):
 
         # Filter out invalid values (inf, nan)
         values = values[np.isfinite(values)]
+        # interpolate in floating point: np.quantile on an integer array wraps around when
+        # neighbouring order statistics differ by more than the dtype can hold
+        values = values.astype(float, copy=False)
         vmin, vmax = np.quantile(values, (self.lower_quantile, self.upper_quantile))  # type: ignore
 
         return vmin, vmax
